@@ -195,7 +195,7 @@ HopProp(g, st) ==
     [] OTHER -> "C07"
 \* C10 restates C07 and C08 for every later hop: those failures are reported under both properties
 AlsoC10(g, st) == st.hops > 0 /\ g # "G19_noWaitForRedirectBody"
-                  /\ (g \in {"G08_dial", "G08_targetForm", "G08_noFragmentNoCreds", "G08_host"} \/ HopProp(g, st) = "C07")
+                  /\ (g \in {"G08_dial", "G08_targetForm", "G08_noFragmentNoCreds", "G08_host", "G12_connectNamesOrigin"} \/ HopProp(g, st) = "C07")
 HopViolations(cfg, st, h) == {g \in HopGuards : ~HopGuard(g, cfg, st, h)}
 
 AfterHop(cfg, st) == [After(cfg, st) EXCEPT !.hops = @ + 1]
